@@ -35,6 +35,7 @@ pub enum Site {
     AlphaBetaEntry,
     QuiescenceEntry,
     RootAfterChild,
+    AlphaBetaAfterChild,
 }
 
 pub trait Sim: Sync {
